@@ -109,7 +109,16 @@ def rule_overrides(facts, rep):
                   f"missing overrides {missing}: a defaulted write_all/write_fmt loops over `write` and would take the lock once per chunk", f"{i['file']}:{i['ln']}")
 
 
-def locks_on_path(nodes, prefix, lock_callee, delegated=None):
+def _local_write_impl(facts, callee):
+    """`<anstream::… as std::io::Write>::m` of a type that is not one of the streams (a private mode enum given its own Write impl)."""
+    import re
+    m = re.match(r"^<(anstream::[^ ]+) as std::io::Write>::(\w+)$", callee)
+    if not m or m.group(2) not in METHODS or facts is None:
+        return False
+    return callee in facts.crate("anstream")["_bodies"]
+
+
+def locks_on_path(nodes, prefix, lock_callee, delegated=None, facts=None):
     n = 0
     seen = set()
     delegated = delegated if delegated is not None else set()
@@ -126,6 +135,9 @@ def locks_on_path(nodes, prefix, lock_callee, delegated=None):
             elif hir.callee(c).startswith("<anstream::strip::StripStream<S> as std::io::Write>::") and hir.callee(c).split("::")[-1] in METHODS:
                 n += 1   # AutoStream's Strip arm → StripStream's override
                 delegated.add(hir.callee(c))
+            elif _local_write_impl(facts, hir.callee(c)):
+                n += 1   # one delegation to the Write impl of a private type of the crate, which is decided like an override
+                delegated.add(hir.callee(c))
     return n
 
 
@@ -140,7 +152,9 @@ def rule_one_lock(facts, rep):
         done.add(path)
         prefix, meth = path.rsplit("::", 1)[0] + "::", path.rsplit("::", 1)[1]
         if prefix not in by_prefix:
-            continue
+            if not _local_write_impl(facts, path):
+                continue
+            by_prefix[prefix] = ("anstream", prefix[1:].split(" as ")[0], prefix, LOCK)
         delegated = set()
         rep.guarded("one-lock", path, lambda a=by_prefix[prefix] + (meth, delegated): one_lock_method(facts, rep, *a))
         todo += sorted(delegated - done)   # an override that a decided method delegates to is decided as well
@@ -160,7 +174,7 @@ def one_lock_method(facts, rep, crate, ty, prefix, lock_callee, meth, delegated)
             for pi, p in enumerate(paths):
                 roots = [t[1] for t in p.trace if t[0] in ("eval",)] + [t[2] for t in p.trace if t[0] == "let"] + ([p.value] if isinstance(p.value, dict) else [])
                 # closures passed to iterator adaptors (write_vectored) are not lock sites; count inside them too (must be 0)
-                n = locks_on_path(roots, prefix, lock_callee, delegated)
+                n = locks_on_path(roots, prefix, lock_callee, delegated, facts)
                 arm = [hir.last_seg(hir.pat_path(t[2])) for t in p.trace if t[0] == "arm"]
                 rep.check(n == 1, "one-lock", b["path"], f"path{pi}{':' + arm[0] if arm else ''}",
                           f"exactly one lock acquisition per call (direct as_locked_write() or one delegation to a sibling override); found {n}", loc(b))
